@@ -16,7 +16,7 @@ ASSUMPTIONS = ["rand::thread_rng() is a CSPRNG (trusted, not modelled)", "the ha
 
 def generate(rng, tier):
     cs = []
-    n = 60 if tier == "quick" else 1500
+    n = 60 if tier == "quick" else 5000
     for _ in range(n):
         us, ps = cred(rng), cred(rng); U = pyref.normalize(us).encode()
         salt, b, a, chal = rbytes(rng, 32), rbytes(rng, 32), rbytes(rng, 32), rbytes(rng, 16)
